@@ -2,7 +2,7 @@ use super::expr;
 use super::objcode::{CallbackCode, ObjectCodeMap, PropertyCode, PropertyCodeKind};
 use crate::diagnostic::{Diagnostic, Diagnostics};
 use crate::objtree::{ObjectNode, ObjectTree};
-use crate::opcode::{BuiltinFunctionKind, ConsoleLogLevel};
+use crate::opcode::{BinaryArithOp, BinaryOp, BuiltinFunctionKind, ConsoleLogLevel};
 use crate::qtname::{self, FileNameRules, UniqueNameGenerator};
 use crate::tir;
 use crate::typedexpr::DescribeType as _;
@@ -864,6 +864,11 @@ impl CxxCodeBodyTranslator {
         match rv {
             Rvalue::Copy(a) => self.format_operand(a),
             Rvalue::UnaryOp(op, a) => format!("{}{}", op, self.format_operand(a)),
+            Rvalue::BinaryOp(op, l, r) if is_double_rem(op, l, r) => format!(
+                "std::fmod({}, {})", // operator% is not defined for double
+                self.format_operand(l),
+                self.format_operand(r)
+            ),
             Rvalue::BinaryOp(op, l, r) => format!(
                 "{} {} {}",
                 self.format_operand(l),
@@ -1008,6 +1013,12 @@ fn format_cxx_string_literal(s: &str) -> String {
     out
 }
 
+fn is_double_rem(op: &BinaryOp, l: &tir::Operand, r: &tir::Operand) -> bool {
+    use crate::typedexpr::TypeDesc;
+    matches!(op, BinaryOp::Arith(BinaryArithOp::Rem))
+        && (l.type_desc() == TypeDesc::DOUBLE || r.type_desc() == TypeDesc::DOUBLE)
+}
+
 fn member_access_op(a: &tir::Operand) -> &'static str {
     if a.type_desc().is_pointer() {
         "->"
@@ -1108,6 +1119,9 @@ fn collect_system_includes(object_code_maps: &[ObjectCodeMap]) -> HashSet<&'stat
                 {
                     #[allow(clippy::single_match)]
                     match r {
+                        Rvalue::BinaryOp(op, l, r) if is_double_rem(op, l, r) => {
+                            includes.insert("cmath");
+                        }
                         Rvalue::CallBuiltinFunction(k, _) => match k {
                             BuiltinFunctionKind::ConsoleLog(_) => {
                                 includes.insert("QtDebug");
